@@ -2,6 +2,7 @@ package checks
 
 import (
 	"fmt"
+	"strings"
 	"time"
 
 	"verif/fw"
@@ -126,7 +127,13 @@ func init() {
 
 func runC10(c *fw.Ctx) {
 	ct := gcs.ObjMeta{ContentType: "text/plain"}
-	P := func(n, body string) GOp { return GOp{Kind: "Patch", Bucket: "b", Name: n, PatchBody: []byte(body)} }
+	P := func(n, body string) GOp {
+		b := "b"
+		if strings.HasPrefix(n, "b2:") {
+			b, n = "b2", strings.TrimPrefix(n, "b2:")
+		}
+		return GOp{Kind: "Patch", Bucket: b, Name: n, PatchBody: []byte(body)}
+	}
 	alpha := []GOp{
 		{Kind: "Upload", Proto: "media", Bucket: "b", Name: "x", Data: []byte("1"), Meta: ct},
 		{Kind: "Upload", Proto: "multipart", Bucket: "b", Name: "x", Data: []byte("22"), Meta: gcs.ObjMeta{ContentType: "text/two", Metadata: map[string]string{"k": "v"}}},
@@ -135,6 +142,11 @@ func runC10(c *fw.Ctx) {
 		{Kind: "Copy", Bucket: "b", Name: "y", DstBucket: "b", DstName: "x"},
 		{Kind: "Copy", Bucket: "b", Name: "x", DstBucket: "b", DstName: "y"},
 		{Kind: "Copy", Bucket: "b", Name: "x", DstBucket: "b", DstName: "x"}, // onto itself: still a content write of the destination
+		// across buckets, onto a name the source bucket also holds / does not hold
+		{Kind: "Copy", Bucket: "b", Name: "x", DstBucket: "b2", DstName: "x"},
+		{Kind: "Copy", Bucket: "b", Name: "y", DstBucket: "b2", DstName: "only-in-b2"},
+		{Kind: "Copy", Bucket: "b2", Name: "x", DstBucket: "b", DstName: "y"},
+		P("b2:x", `{"metadata":{"in":"b2"}}`),
 		P("x", `{"metadata":{"a":"1"}}`),
 		P("x", `{"contentType":"text/patched"}`),
 		P("x", `{"cacheControl":"no-store","contentDisposition":"attachment","contentLanguage":"en","metadata":{"k":"w"}}`),
@@ -150,7 +162,7 @@ func runC10(c *fw.Ctx) {
 		{Kind: "Get", Bucket: "b", Name: "x", Form: "json"},
 		{Kind: "GetMeta", Bucket: "b", Name: "y"},
 	}
-	setup := []GOp{{Kind: "CreateBucket", Bucket: "b"}}
+	setup := []GOp{{Kind: "CreateBucket", Bucket: "b"}, {Kind: "CreateBucket", Bucket: "b2"}}
 	depth := 5
 	steps := []int64{1, 1000, 1_000_000_000}
 	if c.Thorough() {
